@@ -248,9 +248,6 @@ func oracleFor(stmt anko.Stmt, extraStrs []string, extraFloats []float64) string
 		if err != nil {
 			pf = append(pf, sxList(sxStr(s), "()"))
 		} else {
-			if f != f {
-				continue // NaN literals in strings: left to the miss protocol
-			}
 			pf = append(pf, sxList(sxStr(s), sxList(fmt.Sprint(math.Float64bits(f)))))
 		}
 	}
